@@ -842,6 +842,11 @@ impl Obj for BitVectorMut {
                 let bits: Vec<bool> = ev["bits"].as_array().unwrap().iter().map(|b| b.as_i64().unwrap() == 1).collect();
                 Some(guard(|| self.extend(bits)))
             }
+            // the same bits through an iterator whose upper size hint (2n) exceeds what it yields (n)
+            "extend_bools_filter" => {
+                let bits: Vec<bool> = ev["bits"].as_array().unwrap().iter().map(|b| b.as_i64().unwrap() == 1).collect();
+                Some(guard(|| self.extend((0..2 * bits.len()).filter(|i| i % 2 == 0).map(|i| bits[i / 2]))))
+            }
             "extend_positions" => {
                 let pos: Vec<usize> = ev["pos"].as_array().unwrap().iter().map(arg).collect();
                 Some(guard(|| self.extend(pos)))
@@ -1031,6 +1036,27 @@ pub fn make_bits(kind: &str, path: &str, ty: &str, bits: Vec<bool>, pos: Vec<i12
         ("BVM", "with_capacity") => Some(Box::new(BitVectorMut::with_capacity(n))),
         ("BVM", "with_zeros") => Some(Box::new(BitVectorMut::with_zeros(n))),
         ("BVM", "bools") => Some(Box::new(bits.into_iter().collect::<BitVectorMut>())),
+        // collected through an iterator with an inexact size hint
+        ("BVM", "bools_filter") => {
+            let n = bits.len();
+            Some(Box::new((0..2 * n).filter(|i| i % 2 == 0).map(|i| bits[i / 2]).collect::<BitVectorMut>()))
+        }
+        ("BV", "bools_filter") => {
+            let n = bits.len();
+            Some(Box::new((0..2 * n).filter(|i| i % 2 == 0).map(|i| bits[i / 2]).collect::<BitVector>()))
+        }
+        // a builder given a generous capacity, then filled bit by bit
+        ("BVM", "cap_push") | ("BV", "cap_push") => {
+            let mut v = BitVectorMut::with_capacity(bits.len() + 5000);
+            for b in bits {
+                v.push(b);
+            }
+            if kind == "BVM" {
+                Some(Box::new(v))
+            } else {
+                Some(Box::new(BitVector::from(v)))
+            }
+        }
         ("BVM", "from_bv") => Some(Box::new(BitVectorMut::from(bv_of(bits)))),
         ("BVM", "positions") => {
             let p: Vec<usize> = pos.iter().map(|&x| x as usize).collect();
